@@ -11,6 +11,9 @@ From Cffi Require Import C25.Model C07.Model C07.Realize C07.PyModel.
 
 Local Open Scope nat_scope.
 
+Lemma iter_succ_r {A} (f : A -> A) n x : Nat.iter (S n) f x = Nat.iter n f (f x).
+Proof. induction n; cbn in *; [reflexivity | rewrite IHn; reflexivity]. Qed.
+
 Definition st0 (input : str) : tok := mkTok input 0 0 KStart [].
 Definition st (input : str) (i : nat) : tok := Nat.iter (S i) next_token (st0 input).
 
@@ -127,7 +130,8 @@ Definition kinds_texts := list (kind * str).
 
 Record lexed (input : str) (toks : kinds_texts) : Prop := {
   lx_kind : forall i, t_kind (st input i) = nth i (map fst toks) KEnd;
-  lx_text : forall i, i < length toks -> tok_text (st input i) = nth i (map snd toks) []
+  lx_text : forall i, i < length toks -> tok_text (st input i) = nth i (map snd toks) [];
+  lx_size : forall i, i < length toks -> t_size (st input i) = length (nth i (map snd toks) [])
 }.
 
 (* invariant of the scan: the current token is s and what follows is spell more trailing *)
@@ -138,7 +142,8 @@ Lemma scan_spelled : forall more s k t trailing,
   forall (kinds : list kind), Forall2 (fun wt k' => lexeme (snd wt) k') more kinds ->
   forall j,
     t_kind (Nat.iter j next_token t) = nth j (k :: kinds) KEnd /\
-    (j < S (length more) -> tok_text (Nat.iter j next_token t) = nth j (s :: map snd more) []).
+    (j < S (length more) -> tok_text (Nat.iter j next_token t) = nth j (s :: map snd more) [] /\
+                            t_size (Nat.iter j next_token t) = length (nth j (s :: map snd more) [])).
 Proof.
   induction more as [|[w s'] more IH]; intros s k t trailing Hr Hsz Hk Hsep Htr Hlex kinds Hk2 j.
   - inversion Hk2; subst kinds.
@@ -146,17 +151,17 @@ Proof.
                                is_ws (t_rest t) = true ->
                                t_kind (Nat.iter j next_token t) = KEnd).
     { clear. induction j; intros t _ Hk Hs Hw; [exact Hk|].
-      cbn [Nat.iter]. rewrite <- Nat.iter_succ_r. cbn [Nat.iter].
+      rewrite iter_succ_r.
       apply IHj; try reflexivity.
       - unfold next_token. rewrite Hs. cbn [skipn]. rewrite (lex_all_ws _ Hw). reflexivity.
       - unfold next_token. rewrite Hs. cbn [skipn]. rewrite (lex_all_ws _ Hw). reflexivity.
       - unfold next_token. rewrite Hs. cbn [skipn]. rewrite (lex_all_ws _ Hw). cbn.
         rewrite skipn_all. reflexivity. }
     destruct j as [|j].
-    + cbn. split; [exact Hk|]. intros _. unfold tok_text. rewrite Hr, Hsz.
+    + cbn. split; [exact Hk|]. intros _. split; [|exact Hsz]. unfold tok_text. rewrite Hr, Hsz.
       unfold spell; cbn. rewrite firstn_app, Nat.sub_diag, firstn_all. cbn. apply app_nil_r.
     + split.
-      * rewrite <- Nat.iter_succ_r. cbn [Nat.iter].
+      * rewrite iter_succ_r.
         destruct j; cbn [nth].
         -- cbn. unfold next_token. rewrite Hr, Hsz. unfold spell; cbn.
            rewrite skipn_app, Nat.sub_diag, skipn_all. cbn. rewrite (lex_all_ws _ Htr). reflexivity.
@@ -174,9 +179,9 @@ Proof.
     destruct Hsep as (Hw & Hsep & Hsep').
     inversion Hlex as [|? ? _ Hlex']; subst.
     destruct j as [|j].
-    + cbn. split; [exact Hk|]. intros _. unfold tok_text. rewrite Hr, Hsz.
+    + cbn. split; [first [exact Hk | reflexivity]|]. intros _. split; [|exact Hsz]. unfold tok_text. rewrite Hr, Hsz.
       rewrite firstn_app, Nat.sub_diag, firstn_all. cbn. apply app_nil_r.
-    + rewrite <- Nat.iter_succ_r. cbn [Nat.iter].
+    + rewrite iter_succ_r.
       assert (Hnt : next_token t = mkTok (s' ++ spell more trailing) (t_pos t + t_size t + length w)
                                          (length s') k' (t_out t)).
       { unfold next_token. rewrite Hr, Hsz, skipn_app, Nat.sub_diag, skipn_all. cbn [app skipn].
@@ -200,7 +205,8 @@ Theorem spell_lexed : forall wtoks trailing kinds,
   lexed (spell wtoks trailing) (combine kinds (map snd wtoks)).
 Proof.
   intros wtoks trailing kinds Hsep Htr Hk.
-  assert (Hlen : length kinds = length wtoks) by (symmetry; eapply Forall2_length; eauto).
+  assert (Hlen : length kinds = length wtoks).
+  { clear - Hk. induction Hk; cbn; congruence. }
   assert (Hlex : Forall (fun wt => exists k', lexeme (snd wt) k') wtoks).
   { clear - Hk. induction Hk; constructor; eauto. }
   pose proof (scan_spelled wtoks [] KStart (st0 (spell wtoks trailing)) trailing
@@ -213,6 +219,9 @@ Proof.
     f_equal. apply IHkinds. lia. }
   constructor.
   - intros i. rewrite Hm1. unfold st. destruct (H (S i)) as [H1 _]. exact H1.
+  - intros i Hi. rewrite Hm2. unfold st. destruct (H (S i)) as [_ H2].
+    rewrite combine_length, map_length in Hi.
+    apply H2. lia.
   - intros i Hi. rewrite Hm2. unfold st. destruct (H (S i)) as [_ H2].
     rewrite combine_length, map_length in Hi.
     apply H2. lia.
